@@ -1,7 +1,69 @@
+/-
+C01 — Committing a CSV stores exactly its rows (one per primary key), losslessly.
+Property theorems only. Model: Model/Sorter.lean (`ingestTable`: sorter → blocks → table),
+Model/Encoding.lean (row/block codec). `sort.Slice` is a parameter assumed to be a correct sort.
+CSV tokenisation (encoding/csv) is trusted: "the rows of the CSV" are what it returns.
+-/
 import WrglModel.Model.Sorter
-import WrglModel.Spec.Sorter
-import WrglModel.Spec.TableInv
+import WrglModel.Lemmas.C01
+import WrglModel.Lemmas.C06Codec
 import WrglModel.Gen.Facts
 namespace Wrgl
-theorem C01_placeholder : True := trivial
+
+/-! ties to the source -/
+theorem C01_fact_blockSize : Facts.blockSize = 255 := by decide
+theorem C01_fact_addRowGuard : Facts.addRowMaxCell = some 65535 := by decide
+theorem C01_fact_sortFileChecksAddRow : Facts.sortFileChecksAddRow = true := by decide
+theorem C01_fact_encodeGuard : Facts.strListEncodeMaxCell = some 65535 := by decide
+theorem C01_fact_offsetWide : Facts.strListOffsetWide = true := by decide
+
+/-- For every input, key choice, run size (spill pattern) and correct sort: the stored rows are
+    input rows, their keys strictly ascend in byte order, every input key is represented — exactly
+    one row per distinct key, each identical cell-for-cell to an input row carrying that key — and
+    the recorded row count is the number of stored rows. Empty keys and empty cells included. -/
+theorem C01_keys_exact (sortFn : List Row → List Row) (pk : List Nat) (hs : IsSort pk sortFn)
+    (w : Nat) (runSize : Nat) (columns : Row) (rows : List Row) (t : StoredTable) (hw : RowsWF w pk rows)
+    (h : ingestTable sortFn Facts.blockSize Facts.addRowMaxCell runSize columns pk rows = .ok t) :
+    t.blocks.flatten.Pairwise (fun a b => keyCmp (keyOf pk a) (keyOf pk b) = .lt) ∧
+    (∀ r ∈ t.blocks.flatten, r ∈ rows) ∧
+    (∀ r ∈ rows, ∃ r' ∈ t.blocks.flatten, keyOf pk r' = keyOf pk r) ∧
+    t.rowsCount = t.blocks.flatten.length ∧ t.columns = columns := by
+  have h1 := ingest_rows_spec sortFn pk hs Facts.blockSize (by decide) w Facts.addRowMaxCell runSize columns rows t hw h
+  obtain ⟨_, _, _, _, _, _, hc, _⟩ := ingest_shape sortFn Facts.blockSize (by decide) Facts.addRowMaxCell runSize columns pk rows t h
+  exact ⟨h1.1, h1.2.1, h1.2.2.1, h1.2.2.2, hc⟩
+
+/-- When keys are unique the stored rows are exactly the input rows (a permutation of them):
+    nothing dropped, duplicated, truncated or altered. -/
+theorem C01_unique_exact (sortFn : List Row → List Row) (pk : List Nat) (hs : IsSort pk sortFn)
+    (w : Nat) (runSize : Nat) (columns : Row) (rows : List Row) (t : StoredTable) (hw : RowsWF w pk rows)
+    (huniq : rows.Pairwise (fun a b => keyOf pk a ≠ keyOf pk b))
+    (h : ingestTable sortFn Facts.blockSize Facts.addRowMaxCell runSize columns pk rows = .ok t) :
+    t.blocks.flatten.Perm rows :=
+  ingest_unique_perm sortFn pk hs Facts.blockSize (by decide) w Facts.addRowMaxCell runSize columns rows t hw huniq h
+
+/-- A cell over the 65535-byte limit is refused with an error — never a panic, never a stored
+    table — and nothing else is refused. -/
+theorem C01_overlimit_refused (sortFn : List Row → List Row) (runSize : Nat) (columns : Row) (pk : List Nat) (rows : List Row) :
+    ((∃ t, ingestTable sortFn Facts.blockSize Facts.addRowMaxCell runSize columns pk rows = .ok t) ↔
+      ∀ r ∈ rows, ∀ c ∈ r, c.length ≤ 65535) ∧
+    (∀ p, ingestTable sortFn Facts.blockSize Facts.addRowMaxCell runSize columns pk rows ≠ .panic p) := by
+  rw [C01_fact_addRowGuard]
+  exact ingest_total sortFn Facts.blockSize 65535 runSize columns pk rows
+
+/-- The stored table does not depend on the order of the rows in the file, the run size or the
+    sort used (unique keys); worker count independence is C16. -/
+theorem C01_config_independent (s1 s2 : List Row → List Row) (pk : List Nat)
+    (h1 : IsSort pk s1) (h2 : IsSort pk s2) (w : Nat) (rs1 rs2 : Nat)
+    (columns : Row) (rows1 rows2 : List Row) (t1 t2 : StoredTable) (hw : RowsWF w pk rows1)
+    (hperm : rows1.Perm rows2) (huniq : rows1.Pairwise (fun a b => keyOf pk a ≠ keyOf pk b))
+    (e1 : ingestTable s1 Facts.blockSize Facts.addRowMaxCell rs1 columns pk rows1 = .ok t1)
+    (e2 : ingestTable s2 Facts.blockSize Facts.addRowMaxCell rs2 columns pk rows2 = .ok t2) : t1 = t2 :=
+  ingest_config_independent s1 s2 pk h1 h2 Facts.blockSize w _ _ rs1 rs2 columns rows1 rows2 t1 t2 hw hperm huniq e1 e2
+
+/-- Every stored row reads back cell-for-cell, whatever its total size. -/
+theorem C01_row_roundtrip (r : Row) (rest b : Bytes)
+    (hc : ∀ c ∈ r, c.length ≤ 65535) (hn : r.length < 2 ^ 32)
+    (he : strListEncode 65535 r = .ok b) : strListRead (b ++ rest) = .ok (r, rest) :=
+  strList_roundtrip 65535 (by decide) r rest b hc hn he
+
 end Wrgl
